@@ -476,6 +476,15 @@ class Interp:
             is_gen = func._is_gen = any(isinstance(x, (ast.Yield, ast.YieldFrom)) for st in func.node.body
                                         if not isinstance(st, (ast.FunctionDef, ast.AsyncFunctionDef, ast.ClassDef))
                                         for x in walk_shallow(st))
+        if is_gen and _is_endless_generator(func):
+            # `while True: ... yield ...` - consumed with next(): stepped on demand (see _SteppedGen)
+            def body(sink, env=env):
+                env["__yields__"] = sink
+                try:
+                    self.exec_block(func.body_without_docstring(), env, func, depth)
+                except _Return:
+                    pass
+            return _SteppedGen(body)
         if is_gen:
             env["__yields__"] = []
         try:
@@ -1269,7 +1278,7 @@ class Interp:
                         raise Raised("TypeError", "not subscriptable")
                     return self.call_func(m, [slice(lo, hi, stp)], {}, o, depth + 1)
                 if isinstance(o, _Gen):
-                    o = o.items
+                    raise Raised("TypeError", "generator is not subscriptable")
                 try:
                     return o[lo:hi:stp]
                 except TypeError as ex:
@@ -1336,7 +1345,12 @@ class Interp:
             env["__yields__"].append(self.eval(n.value, env, func, depth) if n.value is not None else None)
             return None
         if t is ast.YieldFrom:
-            env["__yields__"].extend(self.iterate(self.eval(n.value, env, func, depth)))
+            inner = self.eval(n.value, env, func, depth)
+            if isinstance(inner, _Gen):
+                for v_ in inner.lazy():
+                    env["__yields__"].append(v_)
+            else:
+                env["__yields__"].extend(self.iterate(inner))
             return None
         if t is ast.Starred:
             raise Uninterpretable("starred")
@@ -1592,6 +1606,14 @@ class Interp:
                 if not dict.__contains__(env2, a_.arg) and d is not None:
                     dict.__setitem__(env2, a_.arg, self.eval(d, cenv, func, depth))
             is_gen = any(isinstance(x, (ast.Yield, ast.YieldFrom)) for x in walk_shallow(m.node))
+            if is_gen and _is_endless_generator(m):
+                def body(sink, env2=env2):
+                    dict.__setitem__(env2, "__yields__", sink)
+                    try:
+                        self.exec_block(m.body_without_docstring(), env2, m, depth + 1)
+                    except _Return:
+                        pass
+                return _SteppedGen(body)
             if is_gen:
                 dict.__setitem__(env2, "__yields__", [])
             try:
@@ -2018,6 +2040,17 @@ class Interp:
         if name == "astuple":
             return tuple(args[0].fields[k] for k in args[0].fields["__dataclass_fields__"])
         if name == "islice":
+            if isinstance(args[0], _SteppedGen):
+                sl = slice(*args[1:])
+                if sl.stop is None:
+                    raise Uninterpretable("islice without a stop on an endless generator")
+                seq = []
+                for _ in range(sl.stop):
+                    try:
+                        seq.append(args[0].next_item())
+                    except _Exhausted:
+                        break
+                return _Gen(seq[sl])
             seq = self.iterate(args[0])
             return _Gen(seq[slice(*args[1:])])
         if name == "chain":
@@ -2047,6 +2080,19 @@ class Interp:
         if name == "reversed":
             return _Gen(list(reversed(self.iterate(args[0]))))
         if name == "zip":
+            if any(isinstance(a, _SteppedGen) for a in args):
+                # an endless generator zipped with finite operands: stepped as far as the shortest finite operand, in
+                # argument order (zip asks its operands left to right and stops at the first exhausted one)
+                cols = [a if isinstance(a, _SteppedGen) else list(self.iterate(a)) for a in args]
+                out = []
+                while True:
+                    row = []
+                    for c in cols:
+                        try:
+                            row.append(c.next_item() if isinstance(c, _SteppedGen) else c.pop(0))
+                        except (_Exhausted, IndexError):
+                            return out
+                    out.append(tuple(row))
             return list(zip(*[self.iterate(a) for a in args]))
         if name == "filter":
             return _Gen([x for x in self.iterate(args[1]) if self.truth(x if args[0] is None else self.apply(args[0], [x], {}, func, depth))])
@@ -2061,8 +2107,10 @@ class Interp:
         if name == "next":
             g = args[0]
             if isinstance(g, _Gen):
-                if g.items:
-                    return g.items.pop(0)
+                try:
+                    return g.next_item()
+                except _Exhausted:
+                    pass
                 if len(args) > 1:
                     return args[1]
                 raise Raised("StopIteration")
@@ -2086,6 +2134,11 @@ class _Gen:
     def __init__(self, items):
         self.items = list(items)
 
+    def next_item(self):
+        if self.items:
+            return self.items.pop(0)
+        raise _Exhausted()
+
     def take(self):
         out, self.items = self.items, []
         return out
@@ -2096,6 +2149,135 @@ class _Gen:
 
     def __iter__(self):
         return iter(self.take())
+
+
+class _Exhausted(Exception):
+    pass
+
+
+class _GenClosed(BaseException):
+    pass
+
+
+def _is_endless_generator(func):
+    """a generator function whose body has a `while <true constant>:` loop that yields: it never finishes on its own and is
+    meant to be stepped with next() (or cut off by the consumer)"""
+    v = getattr(func, "_endless", None)
+    if v is None:
+        v = False
+        for st in walk_shallow(func.node):
+            if isinstance(st, ast.While) and isinstance(st.test, ast.Constant) and st.test.value:
+                if any(isinstance(x, (ast.Yield, ast.YieldFrom)) for b in st.body for x in walk_shallow(b)):
+                    v = True
+        func._endless = v
+    return v
+
+
+class _GenState:
+    """body side of a stepped generator (referenced by the body's thread and environment; never references the handle, so
+    dropping the handle is observable)"""
+
+    def __init__(self, body):
+        import threading
+        self.body = body
+        self.resume = threading.Semaphore(0)
+        self.produced = threading.Semaphore(0)
+        self.thread = None
+        self.done = False
+        self.closing = False
+        self.msg = None
+
+    # sink protocol used by Yield / YieldFrom (called in the body's thread)
+    def append(self, v):
+        self.msg = ("yield", v)
+        self.produced.release()
+        self.resume.acquire()
+        if self.closing:
+            raise _GenClosed()
+
+    def extend(self, vs):
+        for v in vs:
+            self.append(v)
+
+    def run(self):
+        self.resume.acquire()
+        try:
+            if not self.closing:
+                self.body(self)
+            self.msg = ("done", None)
+        except _GenClosed:
+            self.msg = ("done", None)
+        except BaseException as ex:  # handed to the consumer
+            self.msg = ("exc", ex)
+        self.done = True
+        self.body = None
+        self.produced.release()
+
+    def close(self):
+        if self.thread is not None and not self.done:
+            self.closing = True
+            self.resume.release()
+            self.thread.join(timeout=5)
+        self.done = True
+
+
+class _SteppedGen(_Gen):
+    """an endless generator: the body runs in its own thread and is advanced one `yield` at a time; exactly one of the two
+    threads runs at any moment, so the interpreter state is never shared concurrently.  Dropping the object (or exhausting the
+    step budget) unwinds the body."""
+
+    MAX_STEPS = 100000
+
+    def __init__(self, body):
+        self.items = []
+        self._st = _GenState(body)
+        self._n = 0
+
+    def next_item(self):
+        import threading
+        st = self._st
+        if self.items:
+            return self.items.pop(0)
+        if st.done:
+            raise _Exhausted()
+        self._n += 1
+        if self._n > self.MAX_STEPS:
+            raise Uninterpretable("endless generator stepped beyond the bound")
+        if st.thread is None:
+            prev = threading.stack_size(256 * 1024 * 1024)
+            try:
+                st.thread = threading.Thread(target=st.run, daemon=True)
+                st.thread.start()
+            finally:
+                threading.stack_size(prev)
+        st.resume.release()
+        st.produced.acquire()
+        kind, v = st.msg
+        st.msg = None
+        if kind == "yield":
+            return v
+        if kind == "exc":
+            raise v
+        raise _Exhausted()
+
+    def take(self):
+        return list(self.lazy())
+
+    def lazy(self):
+        while True:
+            try:
+                yield self.next_item()
+            except _Exhausted:
+                return
+
+    def close(self):
+        self._st.close()
+
+    def __del__(self):
+        try:
+            self._st.close()
+        except Exception:
+            pass
 
 
 # ------------------------------------------------------------------------------------------
